@@ -144,6 +144,24 @@ fn exact_box(rng: &mut Rng) -> Built {
     Built { ctx, root, desc: format!("exact box sdf centre {c:?} half {h:?}") }
 }
 
+/// |x| + |y| + |z| - r with |t| written as sqrt(t * t): the gradient is NaN on the three coordinate planes, which are
+/// lattice planes of the octree at every depth, so many edge crossings carry no usable normal (incomplete Hermite data),
+/// while the faces are flat (every collapse is attempted)
+fn sqrt_abs_octahedron(rng: &mut Rng) -> Built {
+    let mut ctx = Context::new();
+    let (x, y, z) = (ctx.x(), ctx.y(), ctx.z());
+    let mut sum: Option<Node> = None;
+    for a in [x, y, z] {
+        let sq = ctx.square(a).unwrap();
+        let ab = ctx.sqrt(sq).unwrap();
+        sum = Some(match sum { None => ab, Some(s) => ctx.add(s, ab).unwrap() });
+    }
+    let r = 0.45 + 0.05 * rng.below(3) as f32 + 0.013;
+    let kr = k(&mut ctx, r);
+    let root = ctx.sub(sum.unwrap(), kr).unwrap();
+    Built { ctx, root, desc: format!("octahedron sqrt(t^2) r={r}") }
+}
+
 fn pool(n: usize) -> ThreadPool {
     ThreadPool::Custom(rayon::ThreadPoolBuilder::new().num_threads(n).build().unwrap())
 }
@@ -437,7 +455,7 @@ fn main() {
         let depth = if !quick && i % 25 == 24 { 6 } else { 1 + (i % (maxd.min(5))) as u8 };
         let b = match i % 7 {
             0 => shapes::random_csg3(&mut rng, 1 + (i / 6) % 4, true),
-            1 => if i % 2 == 0 { exact_box(&mut rng) } else { shapes::random_csg3(&mut rng, 1 + (i / 6) % 4, true) },
+            1 => if i % 2 == 0 { exact_box(&mut rng) } else { sqrt_abs_octahedron(&mut rng) },
             2 => cone(0.15 + 0.1 * rng.below(5) as f32 + 0.013, 0.5 + 0.1 * rng.below(4) as f32, -0.37 - 0.1 * rng.below(2) as f32),
             3 => bumpy_slab(&mut rng, depth.max(2)),
             4 => {
@@ -454,11 +472,21 @@ fn main() {
                 Built { ctx, root, desc: format!("centred box {lo:?}..{hi:?}") }
             }
         };
-        let depth = if matches!(i % 7, 3 | 5) { depth.max(2) } else if i % 7 == 6 { depth.max(3) } else { depth };
+        let depth = if matches!(i % 7, 3 | 5) { depth.max(2) } else if i % 7 == 6 || (i % 7 == 1 && i % 2 == 1) { depth.max(3) } else { depth };
         // world-to-model transforms that keep the surface strictly inside the region
         let mut moved = Vector3::new(0.0f32, 0.0, 0.0);
         let (w2m, scale, wdesc) = match (i / 2) % 4 {
-            0 | 1 => (Matrix4::identity(), 1.0f32, "identity".to_string()),
+            0 => (Matrix4::identity(), 1.0f32, "identity".to_string()),
+            1 if i % 4 == 2 => {
+                // a projective world-to-model transform (a perspective camera): model = (x, y, z) / (1 + p z).  Shapes of
+                // the generator stay within +-0.6, i.e. strictly inside the image of the region; cells are up to 1 / (1 - p)
+                // times larger in model space
+                let pz = [0.2f32, 0.3, -0.25][rng.below(3)];
+                let mut m = Matrix4::identity();
+                m[(3, 2)] = pz;
+                (m, 1.0 / (1.0 - pz.abs()), format!("perspective {pz}"))
+            }
+            1 => (Matrix4::identity(), 1.0f32, "identity".to_string()),
             2 => {
                 // the model-space region is far from the origin: the shape is moved along with it
                 let s = 1.25 + 0.25 * rng.below(3) as f32;
